@@ -261,8 +261,18 @@ pub fn c19_build(raw: &Raw, _tier: Tier, _sched: bool) -> Scenario {
             };
             b.s.threads[th].push(op);
         }
-        // store 0 is stopped / dropped by the last thread while the other store is under load
-        if t + 1 == nthreads {
+        // store 0 is stopped / dropped by the last thread while the other store is under load -
+        // or, in half of the cases, stopped from inside an effect of store 1 (i.e. on a worker
+        // thread that belongs to the *other* store's pool)
+        if t + 1 == nthreads && knob(raw, 13) % 2 == 1 {
+            let (s1, reds1, _) = stores[1].clone();
+            let a = b.action(s1, 0);
+            let mut e = b.eff(EffKind::Task, false, Stall::None);
+            e.ops = vec![Op::Stop { store: 0, via_trait: false }, Op::GetState { store: 0 }];
+            b.act_mut(a).effects.push((reds1[0], e));
+            let at = pick(knob(raw, 12), b.s.threads[th].len() + 1);
+            b.s.threads[th].insert(at, Op::Dispatch { act: a, via: Via::Inherent });
+        } else if t + 1 == nthreads {
             let at = pick(knob(raw, 12), b.s.threads[th].len() + 1);
             let op = if b.s.stores[0].droppable { Op::DropDroppable { store: 0 } } else { Op::Stop { store: 0, via_trait: false } };
             b.s.threads[th].insert(at, op);
@@ -284,12 +294,33 @@ pub fn c19_check(scn: &Scenario, h: &History) -> Outcome {
     for m in findings_of(&p, &[Kind::Isolation, Kind::Fold, Kind::Notify, Kind::Phase, Kind::Verdict]) {
         out.viol(m);
     }
-    let stop0_ret = d
+    let stops0: Vec<&OpRec> = d
         .ops
         .values()
-        .filter(|o| o.th != 0 && matches!(d.op(o.th, o.ix), Some(Op::Stop { store: 0, .. }) | Some(Op::DropDroppable { store: 0 })))
-        .filter_map(|o| o.ret)
-        .min();
+        .filter(|o| o.th != 0 && matches!(d.op(o.th, o.ix), Some(Op::Stop { store: 0, .. }) | Some(Op::DropDroppable { store: 0 })) && o.res != Some(Res::Skipped))
+        .collect();
+    let stop0_ret = stops0.iter().filter_map(|o| o.ret).min();
+    // exactly one stop of store 0 before the clean-up: its return is a barrier for store 0, whoever
+    // called it (a client thread or a worker of the other store)
+    if stops0.len() == 1 {
+        if let Some(sr) = stops0[0].ret {
+            for (pos, r) in h.recs.iter().enumerate().skip(sr + 1) {
+                let act = match &r.ev {
+                    Ev::MwIn { act, .. } | Ev::RedIn { act, .. } | Ev::NotIn { act, .. } => Some(*act),
+                    _ => None,
+                };
+                if let Some(a) = act {
+                    if d.store_of_act(a) == 0 {
+                        out.viol(format!("store 0 was still processing action {} at @{} after its stop() (called from {}) had returned at @{}", a, pos, if stops0[0].th >= 1000 { "an effect running on a worker of store 1" } else { "a client thread" }, sr));
+                        break;
+                    }
+                }
+            }
+            if stops0[0].th >= 1000 {
+                out.class("stopped-from-other-stores-worker");
+            }
+        }
+    }
     let stop0_inv = d.stores[0].first_stop_inv;
     let mut v = vec![];
     let mut lost = vec![];
